@@ -25,7 +25,11 @@ def history_obs(ctx):
             for avx in (0, 1):
                 variants = [({"D1": 0, "D2": 3, "B1": 50 if fun == 7 else 18, "B2": 63 if fun == 7 else 18}, "")]
                 if fun in HAS_PARAMS:
-                    variants.append(({"D1": 2, "D2": 5, "B1": 63 if fun == 7 else 18, "B2": 50 if fun == 7 else 18, "SAMEDIM_OTHER_PARAMS": None}, "/same-dim-other-params"))
+                    # one parameter changes at a time, so that a cache key that forgets either of them serves a stale table
+                    b_a, b_b = (63, 50) if fun == 7 else (18, 30)
+                    variants.append(({"D1": 2, "D2": 5, "B1": b_a, "B2": b_a, "SAMEDIM_OTHER_PARAMS": None}, "/same-dim-other-divisor"))
+                    variants.append(({"D1": 3, "D2": 3, "B1": b_a, "B2": b_b, "SAMEDIM_OTHER_PARAMS": None}, "/same-dim-other-bound"))
+                    variants.append(({"D1": 0, "D2": 4, "B1": b_b, "B2": b_a, "SAMEDIM_OTHER_PARAMS": None}, "/same-dim-other-params"))
                 for (pd, tag) in variants:
                     d = {"FUN": fun, "M1": m1, "M2": m2, "AVX": avx}
                     d.update(pd)
